@@ -24,8 +24,8 @@ FUNCTIONS = [
 ]
 MUST_REACH = ["pop3_client.POP3CommandHandler.init_session", "pop3_client.POP3CommandHandler.do_retr", "pop3_client.POP3CommandHandler.do_quit", "pop3_client.POP3CommandHandler.do_uidl", "pop3_client.dot_stuff", "pop3_client.POP3ClientProxy.run", "pop3_parse.parse_pop3_command"]
 BOUNDS = {
-    "quick": {"snapshot": "3 messages (bodies with dot lines, missing final newline)", "session": "3 POP3 commands by selector with symbolic message numbers -1..4, one IMAP-side operation (expunge subset / delivery / none) at a symbolic position, ending QUIT / RSET+QUIT / disconnect", "dot_stuff": "byte strings <= 4 over {'.', 'x', CR, LF}"},
-    "thorough": {"session": "4 POP3 commands", "dot_stuff": "<= 5"},
+    "quick": {"snapshot": "3 messages (bodies with dot lines, missing final newline)", "session": "per harness (snapshot / retr / dele_quit / proxy_disconnect): listing, retrieval and DELE/RSET/QUIT commands with symbolic message numbers -1..4, one IMAP-side operation (expunge of a subset from {none, first, last two} / delivery / none) before or after the DELEs, ending QUIT or disconnect; LIST/UIDL rows after DELE", "dot_stuff": "byte strings <= 4 over {'.', 'x', CR, LF}"},
+    "thorough": {"session": "every subset of IMAP-side expunges in dele_quit", "dot_stuff": "<= 5"},
 }
 SYMBOLIC = ["message numbers", "command selectors", "position and kind of the IMAP-side operation", "ending selector", "stuffing input bytes (selector per byte)"]
 REALISED = ["selectors and message numbers (formatted into command strings)"]
@@ -391,7 +391,7 @@ def dele_quit(n: int, m: int, rset: int, end: int, op: int, e: int, when: int) -
     """
     pre: -1 <= n <= 4 and 1 <= m <= 3 and 0 <= rset <= 2 and end == core.PARAMS["end"] and 0 <= op <= 2 and 0 <= e < 8 and 0 <= when <= 1
     pre: (op == 1 or e == 0) and (op != 0 or when == 0)
-    pre: e in (0, 1, 6)
+    pre: e in core.PARAMS.get("es", (0, 1, 6))
     post: _
     """
     return held(_dele_quit, {"n": core.pick(n, -1, 5), "m": core.pick(m, 1, 4), "rset": core.pick(rset, 0, 3), "end": core.PARAMS["end"], "op": core.pick(op, 0, 3), "e": core.pick(e, 0, 8), "when": core.pick(when, 0, 2)})
@@ -491,13 +491,16 @@ def jobs(tier):
     for lo in range(0, total, 120):
         js.append({"name": f"stuffing[{lo}]", "fn": "stuffing", "params": {"total": min(total, lo + 120), "lo": lo, "maxlen": maxlen}, "timeout": T, "per_path": 60})
     if not q:
-        for c1 in range(12):
-            for op in (0, 1, 2):
-                js.append({"name": f"session[c1={c1},op={op}]", "fn": "session", "params": {"c1": c1, "op": op}, "timeout": 3000, "per_path": 90})
+        # every subset of IMAP-side expunges (quick: none, the first, the last two), one job per subset
+        for end in (0, 1):
+            for e in (2, 3, 4, 5, 7):
+                js.append({"name": f"dele_quit[{'quit' if end == 0 else 'disconnect'},e={e}]", "fn": "dele_quit", "params": {"end": end, "es": [e]}, "timeout": T, "per_path": 90})
     return js
 
 
 SAMPLES = [
+    # `session` (three free commands around an IMAP-side operation) is too wide to explore within any budget
+    # tried (a job per first command ran > 50 min); it is kept as two concrete runs
     {"fn": "session", "params": {}, "args": {"c1": 6, "c2": 5, "c3": 1, "n": 2, "m": 1, "op": 1, "pos": 1, "e1": True, "e2": False, "e3": False, "end": 0}},
     {"fn": "session", "params": {}, "args": {"c1": 2, "c2": 11, "c3": 7, "n": 3, "m": 2, "op": 2, "pos": 0, "e1": False, "e2": False, "e3": False, "end": 2}},
     {"fn": "proxy_disconnect", "params": {}, "args": {"k": 2, "quit_": True}},
